@@ -18,21 +18,21 @@ def profs(spec, mult):
     return [{"profile": name, "count": max(1, int(n * mult)), "seed_offset": 1000 * i} for i, (name, n) in enumerate(spec)]
 
 PROFILES = {
-    "C01": [("pressure", 12), ("fill", 10), ("mix", 6), ("ttl", 4)],
-    "C02": [("reads", 12), ("mix", 8), ("burst", 6)],
-    "C03": [("seq", 24), ("ttl", 8)],
-    "C04": [("burst", 12), ("mix", 8), ("ttl", 5)],
-    "C05": [("burst", 15), ("mix", 8), ("pressure", 5)],
-    "C06": [("pressure", 18), ("fill", 12), ("mix", 4)],
-    "C07": [("ttl", 10), ("mix", 8), ("burst", 8)],
-    "C08": [("ttl", 10), ("seq", 14), ("mix", 6)],
-    "C09": [("ttl", 15), ("seq", 8), ("reads", 5)],
-    "C10": [("ttl", 18), ("seq", 8), ("evictrace", 6)],
-    "C11": [("burst", 20), ("mix", 8)],
-    "C13": [("shutdown", 10), ("shutrace", 80), ("mix", 3)],
-    "C15": [("reads", 14), ("mix", 4)],
-    "C16": [("stats", 15), ("allhit", 6), ("mix", 6)],
-    "C17": [("boundary", 20), ("evictrace", 14), ("mix", 5), ("pressure", 3), ("ttl", 3)],
+    "C01": [("pressure", 12), ("fill", 10), ("mix", 6), ("ttl", 4), ("lg-updrace", 20), ("lg-pressure", 4)],
+    "C02": [("reads", 12), ("mix", 8), ("burst", 6), ("lg-reads", 4)],
+    "C03": [("seq", 24), ("ttl", 8), ("lg-seq", 4)],
+    "C04": [("burst", 12), ("mix", 8), ("ttl", 5), ("lg-burst", 4)],
+    "C05": [("burst", 15), ("mix", 8), ("pressure", 5), ("lg-updrace", 10), ("lg-burst", 4)],
+    "C06": [("pressure", 18), ("fill", 12), ("mix", 4), ("lg-pressure", 4)],
+    "C07": [("ttl", 10), ("mix", 8), ("burst", 8), ("lg-ttl", 4)],
+    "C08": [("ttl", 10), ("seq", 14), ("mix", 6), ("lg-ttl", 4)],
+    "C09": [("ttl", 15), ("seq", 8), ("reads", 5), ("lg-ttl", 4)],
+    "C10": [("ttl", 18), ("seq", 8), ("evictrace", 6), ("lg-ttl", 4), ("lg-evictrace", 3)],
+    "C11": [("burst", 20), ("mix", 8), ("lg-burst", 5)],
+    "C13": [("shutdown", 10), ("shutrace", 80), ("mix", 3), ("lg-shutdown", 5)],
+    "C15": [("reads", 14), ("mix", 4), ("lg-reads", 4)],
+    "C16": [("stats", 15), ("allhit", 6), ("mix", 6), ("lg-stats", 4)],
+    "C17": [("boundary", 20), ("evictrace", 14), ("mix", 5), ("pressure", 3), ("ttl", 3), ("lg-boundary", 4)],
 }
 
 PLANS = {}
